@@ -420,7 +420,7 @@ class Contract:
         # route methods the contract declares as models / call-outs
         for key, h in self.calls.items():
             cname, _, m = key.partition(".")
-            if m and any(k.__name__ == cname for k in cls.__mro__) and m != "*":
+            if m and m != "*" and (cname == _name or any(k.__name__ == cname for k in cls.__mro__)):
                 object.__setattr__(o, m, (lambda h: lambda *a, **kw: h(NATIVE, o, *a, **kw))(h))
         return o
 
@@ -636,7 +636,7 @@ class FunctionResult:
         return self.__dict__
 
 
-def symbolic_run(contract: Contract, tier="quick", mutate=None) -> FunctionResult:
+def symbolic_run(contract: Contract, tier="quick", mutate=None, stop_on=None) -> FunctionResult:
     """Generate and discharge all VCs of one contract.  `mutate` optionally
     maps the function's source text to a mutated text (canary self-check)."""
     res = FunctionResult(contract)
@@ -695,6 +695,53 @@ def symbolic_run(contract: Contract, tier="quick", mutate=None) -> FunctionResul
             S = State(i, old, NSView(objs), value, exc, list(c.trace), dict(c.ghost))
             return S, in_known
 
+        def discharge():
+            """Decide the obligations generated so far; returns True when a canary run found what it looks for."""
+            hit = False
+            items = list(pending)
+            del pending[:]
+            for ob, S in items:
+                rec = {"name": ob.name, "kind": ob.kind}
+                g = z3.simplify(ob.goal)
+                if z3.is_true(g):
+                    rec.update(backend="simplifier", verdict="unsat", seconds=0.0)
+                    res.obligations.append(rec)
+                    continue
+                ts = time.time()
+                if ts - t0 > budget:
+                    verdict, backend, model = "unknown", "budget-exhausted", None
+                else:
+                    verdict, backend, model = core.solve(ob.hyps + [z3.Not(ob.goal)], timeout, want_model=True)
+                    if verdict == "sat":
+                        from . import spec as _spec
+                        r2 = _spec.confirm_sat(ob.hyps + [z3.Not(ob.goal)], timeout)
+                        if r2 == "unsat":
+                            verdict, backend = "unsat", "z3py-recfun"
+                        elif r2 == "unknown":
+                            verdict, backend = "unknown", "abstraction-sat-unconfirmed"
+                dt = time.time() - ts
+                if os.environ.get("PYVC_DEBUG"):
+                    print("[pyvc] %s %s %s %.2fs" % (ob.name, verdict, backend, dt), file=sys.stderr, flush=True)
+                res.solver_s += dt
+                rec.update(backend=backend, verdict=verdict, seconds=round(dt, 3))
+                res.obligations.append(rec)
+                if verdict == "unsat":
+                    continue
+                if verdict == "unknown":
+                    res.undecided.append(rec)
+                    continue
+                vio = {"obligation": ob.name, "backend": backend, "info": ob.info}
+                if model is not None:
+                    try:
+                        vio["inputs"] = model_inputs(contract, model)
+                    except Exception as e:  # model read-back is best effort
+                        vio["inputs_error"] = repr(e)
+                    vio["model"] = model.get("__text__", "")[:2000]
+                res.violations.append(vio)
+                if stop_on is not None and stop_on in ob.name:
+                    hit = True
+            return hit
+
         cover = 0
         for c, outcome in core.explore(run, max_paths=contract.max_paths):
             res.paths += 1
@@ -706,6 +753,8 @@ def symbolic_run(contract: Contract, tier="quick", mutate=None) -> FunctionResul
             if kind == "cut":
                 for ob in c.obligations:
                     pending.append((ob, None))
+                if discharge():
+                    break
                 continue
             S, in_known = payload
             cover += 1
@@ -759,47 +808,9 @@ def symbolic_run(contract: Contract, tier="quick", mutate=None) -> FunctionResul
                         same = (v1 is v0) or (v1 is not _MISSING and veq(v0, v1))
                         pending.append((core.Obligation("%s/frame/%s.%s" % (contract.name, oname, fld),
                                                         list(c.pc), as_bool_term(same), "frame"), S))
+            if discharge():
+                break
         res.cover_ok = cover > 0
-        # discharge
-        symbols_cache = None
-        for ob, S in pending:
-            rec = {"name": ob.name, "kind": ob.kind}
-            g = z3.simplify(ob.goal)
-            if z3.is_true(g):
-                rec.update(backend="simplifier", verdict="unsat", seconds=0.0)
-                res.obligations.append(rec)
-                continue
-            ts = time.time()
-            if ts - t0 > budget:
-                verdict, backend, model = "unknown", "budget-exhausted", None
-            else:
-                verdict, backend, model = core.solve(ob.hyps + [z3.Not(ob.goal)], timeout, want_model=True)
-                if verdict == "sat":
-                    from . import spec as _spec
-                    r2 = _spec.confirm_sat(ob.hyps + [z3.Not(ob.goal)], timeout)
-                    if r2 == "unsat":
-                        verdict, backend = "unsat", "z3py-recfun"
-                    elif r2 == "unknown":
-                        verdict, backend = "unknown", "abstraction-sat-unconfirmed"
-            dt = time.time() - ts
-            if os.environ.get("PYVC_DEBUG"):
-                print("[pyvc] %s %s %s %.2fs" % (ob.name, verdict, backend, dt), file=sys.stderr, flush=True)
-            res.solver_s += dt
-            rec.update(backend=backend, verdict=verdict, seconds=round(dt, 3))
-            res.obligations.append(rec)
-            if verdict == "unsat":
-                continue
-            if verdict == "unknown":
-                res.undecided.append(rec)
-                continue
-            vio = {"obligation": ob.name, "backend": backend, "info": ob.info}
-            if model is not None:
-                try:
-                    vio["inputs"] = model_inputs(contract, model)
-                except Exception as e:  # model read-back is best effort
-                    vio["inputs_error"] = repr(e)
-                vio["model"] = model.get("__text__", "")[:2000]
-            res.violations.append(vio)
         res.axioms = sorted(models.USED_AXIOMS)
         res.known_ids = sorted(seen_known)
     except Unsupported as e:
